@@ -72,47 +72,34 @@ def closeFixup {σ} (url : Option Str) (line : Nat) (r : M σ) : M σ :=
     else .error (synErr url line ("close:" ++ e.tag))
   | .error f => .error f
 
-/-- `start_section(section, rest)` with `rest = line[1:-1]` -/
-def startSection {σ} (c : PCtx σ) (url : Option Str) (line : Nat) (rest : Str) (st : PS σ) : M (PS σ) :=
-  let isempty := lastN rest 1 == ['/']
-  let rest1 := if isempty then dropLastN rest 1 else rest
-  let text := rstrip rest1
-  match hdrMatch text with
-  | none => .error (synErr url line "malformed section header")
-  | some (ty0, nm0) =>
-    let ty := lower ty0
-    let nm := match nm0 with | some n => if n == [] then none else some (lower n) | none => none
-    match c.start st.ctx ty nm with
-    | .error (.cfg e) => .error (synErr url line ("start:" ++ e.tag))
-    | .error f => .error f
-    | .ok ctx1 =>
-      if isempty then
-        (closeFixup url line (c.stop ctx1 ty nm)).map fun ctx2 => { st with ctx := ctx2 }
-      else .ok { st with ctx := ctx1, stack := (ty, nm) :: st.stack }
+/-- `start_section` after the header has been parsed -/
+def openSection {σ} (c : PCtx σ) (url : Option Str) (line : Nat) (ty : Str) (nm : Option Str) (isempty : Bool)
+    (st : PS σ) : M (PS σ) :=
+  match c.start st.ctx ty nm with
+  | .error (.cfg e) => .error (synErr url line ("start:" ++ e.tag))
+  | .error f => .error f
+  | .ok ctx1 =>
+    if isempty then
+      (closeFixup url line (c.stop ctx1 ty nm)).map fun ctx2 => { st with ctx := ctx2 }
+    else .ok { st with ctx := ctx1, stack := (ty, nm) :: st.stack }
 
-/-- `end_section(section, rest)` with `rest = line[2:-1]` -/
-def endSection {σ} (c : PCtx σ) (url : Option Str) (line : Nat) (rest : Str) (st : PS σ) : M (PS σ) :=
+/-- `end_section` after the type text has been normalised -/
+def closeSection {σ} (c : PCtx σ) (url : Option Str) (line : Nat) (ty : Str) (st : PS σ) : M (PS σ) :=
   match st.stack with
   | [] => .error (synErr url line "unexpected section end")
   | (opentype, name) :: stack' =>
-    let ty := lower (rstrip rest)
     if ty != opentype then .error (synErr url line "unbalanced section end")
     else (closeFixup url line (c.stop st.ctx ty name)).map fun ctx2 => { st with ctx := ctx2, stack := stack' }
 
-/-- `handle_key_value(section, rest)` -/
-def keyValue {σ} (env : Env) (c : PCtx σ) (url : Option Str) (line : Nat) (rest : Str) (st : PS σ) : M (PS σ) :=
-  match kvMatch rest with
-  | none => .error (synErr url line "malformed configuration data")
-  | some (key, value?) => do
-    let value ← match value? with
-      | none => pure []
-      | some v => if v == [] then pure [] else replace env st.defs url line v
-    match c.value st.ctx key value { line := line, url := url } with
-    | .ok ctx1 => .ok { st with ctx := ctx1 }
-    | .error (.cfg e) =>
-      .error (.cfg { e with line := (match e.line with | some l => if l < 0 then some (line : Int) else some l | none => some (line : Int)),
-                            url := (match e.url with | some u => if u == [] then url else some u | none => url) })
-    | .error f => .error f
+/-- `handle_key_value` after the line has been split -/
+def keyValue {σ} (env : Env) (c : PCtx σ) (url : Option Str) (line : Nat) (key raw : Str) (st : PS σ) : M (PS σ) := do
+  let value ← if raw == [] then pure [] else replace env st.defs url line raw
+  match c.value st.ctx key value { line := line, url := url } with
+  | .ok ctx1 => .ok { st with ctx := ctx1 }
+  | .error (.cfg e) =>
+    .error (.cfg { e with line := (match e.line with | some l => if l < 0 then some (line : Int) else some l | none => some (line : Int)),
+                          url := (match e.url with | some u => if u == [] then url else some u | none => url) })
+  | .error f => .error f
 
 /-- `parts[1]` if `len(parts) == 2` else `''` -/
 def defValue (more : List Str) : Str := match more with | v :: _ => v | [] => []
@@ -134,60 +121,86 @@ def define (env : Env) (url : Option Str) (line : Nat) (rest : Str) (defs : List
     let nv ← replace env defs url line defvalue
     pure (setDef defs defname nv)
 
-inductive Directive | define (arg : Str) | import_ (arg : Str) | include_ (arg : Str)
+/-- what `parse` makes of one stripped line before it touches the context: mirrors the `if/elif` chain of
+    `parse`, the header parsing of `start_section`, `end_section`'s `rstrip().lower()`, and the two uses of
+    `_keyvalue_rx` -/
+inductive LineShape where
+  | skip
+  | open_ (ty : Str) (nm : Option Str) (empty : Bool)
+  | close (ty : Str)
+  | define (arg : Str) | import_ (arg : Str) | include_ (arg : Str)
+  | kv (key val : Str)
+  | bad (tag : String)
+  | internal (exc : String)
+deriving Repr, DecidableEq
 
-/-- `handle_directive` up to the dispatch -/
-def directive (url : Option Str) (line : Nat) (rest : Str) : M Directive :=
-  match kvMatch rest with
-  | none => .error (synErr url line "missing or unrecognized directive")
-  | some (name, arg?) =>
-    if !Gen.directives.contains name then .error (synErr url line "unknown directive")
+def lineShape (l : Str) : LineShape :=
+  if l.take 1 == [] || l.take 1 == ['#'] then .skip
+  else if l.take 2 == ['<', '/'] then
+    if lastN l 1 != ['>'] then .bad "malformed section end"
+    else .close (lower (rstrip (dropLastN (l.drop 2) 1)))
+  else if l.take 1 == ['<'] then
+    if lastN l 1 != ['>'] then .bad "malformed section start"
     else
-      let arg := arg?.getD []
-      if arg == [] then .error (synErr url line "missing argument")
-      else if name == "define".toList then .ok (.define arg)
-      else if name == "import".toList then .ok (.import_ arg)
-      else if name == "include".toList then .ok (.include_ arg)
-      else .error (.internal "AttributeError")       -- a directive name without a handler method
+      let rest := dropLastN (l.drop 1) 1
+      let isempty := lastN rest 1 == ['/']
+      let rest1 := if isempty then dropLastN rest 1 else rest
+      match hdrMatch (rstrip rest1) with
+      | none => .bad "malformed section header"
+      | some (ty0, nm0) =>
+        .open_ (lower ty0) (match nm0 with | some n => if n == [] then none else some (lower n) | none => none) isempty
+  else if l.take 1 == ['%'] then
+    match kvMatch (l.drop 1) with
+    | none => .bad "missing or unrecognized directive"
+    | some (name, arg?) =>
+      if !Gen.directives.contains name then .bad "unknown directive"
+      else
+        let arg := arg?.getD []
+        if arg == [] then .bad "missing argument"
+        else if name == "define".toList then .define arg
+        else if name == "import".toList then .import_ arg
+        else if name == "include".toList then .include_ arg
+        else .internal "AttributeError"
+  else
+    match kvMatch l with
+    | none => .bad "malformed configuration data"
+    | some (key, value?) => .kv key (match value? with | none => [] | some v => v)
 
 mutual
 /-- one iteration of the `while not done` loop on an already stripped line -/
 def stepLine {σ} (fuel : Nat) (env : Env) (c : PCtx σ) (active : List Str) (url : Option Str) (line : Nat) (l : Str) (st : PS σ) : M (PS σ) :=
-  if l.take 1 == [] || l.take 1 == ['#'] then .ok st
-  else if l.take 2 == ['<', '/'] then
-    if lastN l 1 != ['>'] then .error (synErr url line "malformed section end")
-    else endSection c url line (dropLastN (l.drop 2) 1) st
-  else if l.take 1 == ['<'] then
-    if lastN l 1 != ['>'] then .error (synErr url line "malformed section start")
-    else startSection c url line (dropLastN (l.drop 1) 1) st
-  else if l.take 1 == ['%'] then do
-    match ← directive url line (l.drop 1) with
-    | .define arg =>
-      if !c.canDefine then throw (.internal "NotImplementedError")
-      let defs' ← define env url line arg st.defs
-      pure { st with defs := defs' }
-    | .import_ arg =>
-      let pkg ← replace env st.defs url line (strip arg)
-      let ctx' ← c.imp st.ctx pkg
-      pure { st with ctx := ctx' }
-    | .include_ arg =>
-      let a ← replace env st.defs url line (strip arg)
-      if !c.canInclude then throw (.internal "NotImplementedError")
-      match env.resolve url a with
-      | .fragment => throw (.cfg { kind := .plain, url := none, tag := "fragment" })
-      | .unknown => throw (.internal "unresolved-by-harness")
-      | .url u =>
-        match env.res u with
-        | none => throw (.cfg { kind := .plain, url := some u, tag := "error opening" })
-        | some lines =>
-          -- `_parse_resource`: a resource already being read is refused
-          if u != [] && active.contains u then throw (.cfg { kind := .plain, url := some u, tag := "resource includes itself" })
-          match fuel with
-          | 0 => throw (.internal "RecursionError")
-          | fuel' + 1 =>
-            let sub ← parseLines fuel' env c (u :: active) (some u) lines 0 { ctx := st.ctx, stack := [], defs := st.defs }
-            pure { st with ctx := sub.ctx, defs := sub.defs }
-  else keyValue env c url line l st
+  match lineShape l with
+  | .skip => .ok st
+  | .bad tag => .error (synErr url line tag)
+  | .internal e => .error (.internal e)
+  | .close ty => closeSection c url line ty st
+  | .open_ ty nm isempty => openSection c url line ty nm isempty st
+  | .kv key raw => keyValue env c url line key raw st
+  | .define arg => do
+    if !c.canDefine then throw (.internal "NotImplementedError")
+    let defs' ← define env url line arg st.defs
+    pure { st with defs := defs' }
+  | .import_ arg => do
+    let pkg ← replace env st.defs url line (strip arg)
+    let ctx' ← c.imp st.ctx pkg
+    pure { st with ctx := ctx' }
+  | .include_ arg => do
+    let a ← replace env st.defs url line (strip arg)
+    if !c.canInclude then throw (.internal "NotImplementedError")
+    match env.resolve url a with
+    | .fragment => throw (.cfg { kind := .plain, url := none, tag := "fragment" })
+    | .unknown => throw (.internal "unresolved-by-harness")
+    | .url u =>
+      match env.res u with
+      | none => throw (.cfg { kind := .plain, url := some u, tag := "error opening" })
+      | some lines =>
+        -- `_parse_resource`: a resource already being read is refused
+        if u != [] && active.contains u then throw (.cfg { kind := .plain, url := some u, tag := "resource includes itself" })
+        match fuel with
+        | 0 => throw (.internal "RecursionError")
+        | fuel' + 1 =>
+          let sub ← parseLines fuel' env c (u :: active) (some u) lines 0 { ctx := st.ctx, stack := [], defs := st.defs }
+          pure { st with ctx := sub.ctx, defs := sub.defs }
 termination_by (fuel, 0, 0)
 
 /-- the whole `parse` loop over the lines of one resource (each is stripped first) -/
